@@ -61,7 +61,9 @@ pub fn name_strategy(cfg: ClaimCfg) -> BoxedStrategy<String> {
         choices.push((3, Just(String::new()).boxed()));
         choices.push((4, sel(DOTTED_NAMES)));
     }
-    let s = prop::strategy::Union::new_weighted(choices);
+    // the spec-reserved names are outside every property's claim domain (only C13 plants them);
+    // the random-ASCII class could otherwise produce "_sd" by chance (seen once in 1.5 M cases)
+    let s = prop::strategy::Union::new_weighted(choices).prop_filter("reserved name", |n| n != "_sd" && n != "..." && n != "_sd_alg");
     if cfg.path_safe_names {
         s.prop_filter("path-safe name", |n| !n.is_empty() && !n.contains('.') && !n.contains('[')).boxed()
     } else {
@@ -163,6 +165,8 @@ pub fn value_strategy(cfg: ClaimCfg, depth: u32) -> BoxedStrategy<Value> {
         1 => Just(Value::Object(Map::new())),
         // an occasional long array of scalars: indices [10], [11] share a prefix with [1]
         1 => vec(leaf_strategy(cfg), 11..14).prop_map(Value::Array),
+        // an occasional wide object (more members than any fixture has)
+        1 => vec(leaf_strategy(cfg), 9..22).prop_map(|vs| Value::Object(vs.into_iter().enumerate().map(|(i, v)| (format!("m{}", i), v)).collect())),
     ];
     leaf.prop_recursive(depth, 48, 5, move |inner| {
         prop_oneof![
@@ -180,8 +184,31 @@ const ISS_VALUES: &[&str] = &["https://example.com/issuer", "i", "", "issuer-A",
 
 /// Top-level claims object: string `iss`, integer `exp` in 2033..2100, optional `iat` / `sub` /
 /// `nbf`; never top-level `aud`, non-string `sub`, non-numeric `nbf` (C01's JWT-layer exclusions).
+/// a chain of single-member objects / one-element arrays, `depth` levels deep, ending in `inner`
+fn deep_chain(cfg: ClaimCfg) -> BoxedStrategy<Value> {
+    (4usize..7, any::<u32>(), value_strategy(cfg, 1), name_strategy(cfg)).prop_map(|(depth, shape, inner, name)| {
+        let mut v = inner;
+        let mut s = shape;
+        for _ in 0..depth.saturating_sub(1) {
+            v = match s & 3 {
+                0 | 1 => {
+                    let mut m = Map::new();
+                    m.insert(name.clone(), v);
+                    Value::Object(m)
+                }
+                2 => Value::Array(vec![v]),
+                _ => Value::Array(vec![Value::Null, v]),
+            };
+            s >>= 2;
+        }
+        v
+    })
+    .boxed()
+}
+
 pub fn claims_strategy(cfg: ClaimCfg) -> BoxedStrategy<Value> {
-    let members = vec((name_strategy(cfg), value_strategy(cfg, 6)), 0..7);
+    let member = prop_oneof![12 => value_strategy(cfg, 6), 1 => deep_chain(cfg)];
+    let members = vec((name_strategy(cfg), member), 0..7);
     (
         members,
         select(ISS_VALUES),
